@@ -1050,3 +1050,318 @@ fn c13_reap_never_takes_a_socket_whose_handle_is_held() {
     kani::cover!(!gone, "kept");
 }
 }
+
+// ===================================================================================================
+// Listener + child harnesses (two sockets in one kernel): C13 handshake / backlog / accept /
+// reclamation of never-accepted children, C17 TCP demultiplexing.
+
+pub(crate) const R2: SocketAddr = SocketAddr::new(IpAddr::V4(Ipv4Addr::new(10, 0, 0, 3)), 4001);
+
+/// Kernel with a listening socket bound to `bind_ip:80` (what bind + listen leave behind).
+fn mk_listener(bind_ip: IpAddr, backlog: usize) -> (Kernel, Fd) {
+    let mut k = Kernel::new();
+    k.add_address(A);
+    let key = BindKey { domain: Domain::Inet, ty: Type::Stream, local_addr: bind_ip, local_port: 80 };
+    let mut st = Socket::new(Domain::Inet, Type::Stream);
+    st.bound = Some(key.clone());
+    st.listen = Some(crate::kernel::socket::ListenState::new(backlog));
+    let fd = k.sockets.insert(st);
+    k.sockets.insert_binding(key, fd);
+    (k, fd)
+}
+
+fn syn_from(remote: SocketAddr, seq: u32, window: u16) -> (Packet, TcpSegment) {
+    let s = TcpSegment {
+        src_port: remote.port(),
+        dst_port: 80,
+        seq,
+        ack: 0,
+        flags: TcpFlags { syn: true, ack: false, fin: false, rst: false, psh: false, urg: false },
+        window,
+        payload: Bytes::new(),
+    };
+    (Packet { src: remote.ip(), dst: A, ttl: 64, payload: Transport::Tcp(s.clone()) }, s)
+}
+
+/// `accept_syn` step. Listener shape and backlog are concrete per instance; the SYN's sequence
+/// number and window are symbolic. A SYN for a listening address creates exactly one child in
+/// SynReceived, indexed under (local, remote) with mirrored addresses, answers with a SYN-ACK
+/// acknowledging seq+1 - but only while (handshaking + accept-ready children) < backlog.
+fn syn_step(wildcard: bool, backlog: usize) -> bool {
+    let (mut k, lfd) = mk_listener(if wildcard { IpAddr::V4(Ipv4Addr::UNSPECIFIED) } else { A }, backlog);
+    let seq: u32 = kani::any();
+    let (pkt, s) = syn_from(R, seq, kani::any());
+    deliver(&mut k, &pkt, &s);
+    let n = k.sockets.iter().count();
+    let created = n == 2;
+    if backlog == 0 {
+        assert!(n == 1 && k.outbound.len() == 0 && k.sockets.find_connection(L, R).is_none(), "backlog full: SYN dropped");
+    } else {
+        assert!(n == 2, "exactly one child");
+        let child = k.sockets.find_connection(L, R).unwrap();
+        assert!(child != lfd);
+        let st = k.sockets.get(child).unwrap();
+        let t = st.tcb.as_ref().unwrap();
+        assert!(t.state == TcpState::SynReceived && t.peer == R && t.rcv_nxt == seq.wrapping_add(1));
+        assert!(st.peer == Some(Addr::Inet(R)) && st.listen.is_none() && !st.fd_closed);
+        let b = st.bound.as_ref().unwrap();
+        assert!(b.local_addr == A && b.local_port == 80, "child inherits the concrete accepted address");
+        assert!(k.outbound.len() == 1);
+        let o = tcp_of(k.outbound.back().unwrap());
+        assert!(o.flags.syn && o.flags.ack && o.ack == seq.wrapping_add(1) && o.seq.wrapping_add(1) == t.snd_nxt);
+        assert!(k.outbound.back().unwrap().dst == R.ip() && o.dst_port == R.port() && o.src_port == 80);
+        assert!(k.sockets.get(lfd).unwrap().listen.as_ref().unwrap().ready.len() == 0, "not accept-ready before the handshake ends");
+    }
+    std::mem::forget(k);
+    std::mem::forget(pkt);
+    std::mem::forget(s);
+    created
+}
+// @verif id=C13,C17 tier=quick role=accept_syn timeout=900 desc=listener=A:80,backlog=1
+crate::verif_proof! { unwind = 8;
+fn c13_syn_creates_one_child() {
+    let created = syn_step(false, 1);
+    kani::cover!(created, "child created");
+}
+}
+// @verif id=C13,C17 tier=quick role=accept_syn timeout=900 desc=listener=0.0.0.0:80,backlog=1
+crate::verif_proof! { unwind = 8;
+fn c13_syn_to_wildcard_listener_creates_child_with_concrete_address() {
+    let created = syn_step(true, 1);
+    kani::cover!(created, "child of a wildcard listener");
+}
+}
+// @verif id=C13 tier=quick role=accept_syn timeout=900 desc=listener=A:80,backlog=0
+crate::verif_proof! { unwind = 8;
+fn c13_syn_is_dropped_when_backlog_is_full() {
+    let created = syn_step(false, 0);
+    kani::cover!(!created, "SYN dropped by a full backlog");
+}
+}
+
+/// listener + one child for remote `remote` built directly (what accept_syn leaves behind);
+/// `snd_una` of the child is symbolic, so the expected handshake ACK number is too.
+fn mk_listener_with_child(backlog: usize, state: TcpState) -> (Kernel, Fd, Fd, u32) {
+    let (mut k, lfd) = mk_listener(A, backlog);
+    let key = BindKey { domain: Domain::Inet, ty: Type::Stream, local_addr: A, local_port: 80 };
+    let mut st = Socket::new(Domain::Inet, Type::Stream);
+    st.bound = Some(key.clone());
+    st.peer = Some(Addr::Inet(R));
+    let isn: u32 = kani::any();
+    st.tcb = Some(Tcb {
+        state,
+        peer: R,
+        snd_nxt: isn.wrapping_add(1),
+        snd_una: isn.wrapping_add(1),
+        snd_wnd: 500,
+        rcv_nxt: 1001,
+        send_buf: BytesMut::new(),
+        recv_buf: BytesMut::new(),
+        wr_closed: false,
+        peer_fin: false,
+        fin_seq: None,
+        reset: false,
+        timed_out: false,
+        egress_since_ack: 0,
+        retx_attempts: 0,
+    });
+    let child = k.sockets.insert(st);
+    k.sockets.insert_binding(key, child);
+    k.sockets.insert_connection(L, R, child);
+    (k, lfd, child, isn.wrapping_add(1))
+}
+
+// @verif id=C13 tier=quick role=handshake_ack timeout=900
+// The third handshake packet: an ACK carrying exactly the child's snd_nxt promotes the child to
+// Established and queues it for accept exactly once; any other ACK number leaves it handshaking.
+crate::verif_proof! { unwind = 8;
+fn c13_handshake_ack_queues_the_child_exactly_once() {
+    let (mut k, lfd, child, snd_nxt) = mk_listener_with_child(2, TcpState::SynReceived);
+    let ackno: u32 = kani::any();
+    let seg = TcpSegment {
+        src_port: R.port(), dst_port: 80, seq: 1001, ack: ackno,
+        flags: TcpFlags { syn: false, ack: true, fin: false, rst: false, psh: false, urg: false },
+        window: kani::any(), payload: Bytes::new(),
+    };
+    handle_on_connection(&mut k, child, L, R, &seg);
+    let ready = k.sockets.get(lfd).unwrap().listen.as_ref().unwrap().ready.len();
+    let st = k.sockets.get(child).unwrap().tcb.as_ref().unwrap().state;
+    if ackno == snd_nxt {
+        assert!(st == TcpState::Established && ready == 1, "queued exactly once");
+        assert!(k.sockets.get(lfd).unwrap().listen.as_ref().unwrap().ready.front() == Some(&child));
+    } else {
+        assert!(st == TcpState::SynReceived && ready == 0, "a wrong acknowledgement number does not complete the handshake");
+    }
+    assert!(k.sockets.iter().count() == 2 && k.outbound.len() == 0);
+    kani::cover!(ackno == snd_nxt, "handshake completed");
+    kani::cover!(ackno != snd_nxt, "stray ACK ignored");
+    std::mem::forget(k);
+    std::mem::forget(seg);
+}
+}
+
+// @verif id=C13 tier=quick role=accept_once timeout=900
+// accept hands out each established connection exactly once, with the connector's address; a
+// duplicate of the final handshake ACK (now an ordinary ACK on an Established connection) does not
+// queue it again.
+crate::verif_proof! { unwind = 8;
+fn c13_accept_hands_out_each_connection_once() {
+    let (mut k, lfd, child, snd_nxt) = mk_listener_with_child(2, TcpState::Established);
+    k.sockets.get_mut(lfd).unwrap().listen.as_mut().unwrap().ready.push_back(child);
+    let dup = TcpSegment {
+        src_port: R.port(), dst_port: 80, seq: 1001, ack: snd_nxt,
+        flags: TcpFlags { syn: false, ack: true, fin: false, rst: false, psh: false, urg: false },
+        window: 7, payload: Bytes::new(),
+    };
+    handle_on_connection(&mut k, child, L, R, &dup);
+    assert!(k.sockets.get(lfd).unwrap().listen.as_ref().unwrap().ready.len() == 1, "a duplicate ACK does not queue the child twice");
+    let mut cx = noop_cx();
+    let Poll::Ready(r) = k.poll_accept(lfd, &mut cx) else { panic!("a ready child must be handed out") };
+    let (v, o) = take(r);
+    assert!(o == Outcome::Ok && v == Some((child, R)), "accept returns the child with the connector's address");
+    assert!(k.poll_accept(lfd, &mut cx).is_pending(), "handed out exactly once");
+    kani::cover!(v.is_some(), "accepted");
+    std::mem::forget(k);
+    std::mem::forget(dup);
+}
+}
+
+/// TCP demultiplexing with a listener and one handshaking connection on the same local address; the
+/// kind of inbound segment is concrete per instance, its sequence numbers symbolic.
+fn tcp_demux(kind: u8) {
+    let (mut k, lfd, child, _snd_nxt) = mk_listener_with_child(4, TcpState::SynReceived);
+    let (src, flags) = match kind {
+        0 => (R, TcpFlags { syn: true, ack: false, fin: false, rst: false, psh: false, urg: false }),
+        1 => (R2, TcpFlags { syn: true, ack: false, fin: false, rst: false, psh: false, urg: false }),
+        2 => (R2, TcpFlags { syn: false, ack: true, fin: false, rst: false, psh: false, urg: false }),
+        _ => (R2, TcpFlags { syn: false, ack: false, fin: false, rst: true, psh: false, urg: false }),
+    };
+    let seg = TcpSegment { src_port: src.port(), dst_port: 80, seq: kani::any(), ack: kani::any(), flags, window: 10, payload: Bytes::new() };
+    let pkt = Packet { src: src.ip(), dst: A, ttl: 64, payload: Transport::Tcp(seg.clone()) };
+    deliver(&mut k, &pkt, &seg);
+    let n = k.sockets.iter().count();
+    match kind {
+        0 => {
+            assert!(n == 2 && k.sockets.find_connection(L, R) == Some(child), "known 4-tuple: handled by the connection, no second child");
+            assert!(k.outbound.len() == 0);
+        }
+        1 => {
+            assert!(n == 3, "listener fallback creates a child for the new peer");
+            let c2 = k.sockets.find_connection(L, R2).unwrap();
+            assert!(c2 != child && c2 != lfd);
+            assert!(k.outbound.len() == 1 && tcp_of(k.outbound.back().unwrap()).flags.syn);
+        }
+        2 => {
+            assert!(n == 2 && k.outbound.len() == 1);
+            let o = tcp_of(k.outbound.back().unwrap());
+            assert!(o.flags.rst && k.outbound.back().unwrap().dst == R2.ip() && o.dst_port == R2.port(), "unknown tuple answered with RST");
+            assert!(o.seq == seg.ack, "RST takes its sequence number from the offending ACK");
+        }
+        _ => {
+            assert!(n == 2 && k.outbound.len() == 0, "a stray RST is never answered");
+        }
+    }
+    assert!(k.sockets.get(child).unwrap().tcb.as_ref().unwrap().state == TcpState::SynReceived, "the existing connection is untouched");
+    std::mem::forget(k);
+    std::mem::forget(pkt);
+    std::mem::forget(seg);
+}
+// @verif id=C17,C13 tier=quick role=tcp_demux timeout=900 desc=retransmitted-SYN-of-known-peer
+crate::verif_proof! { unwind = 8;
+fn c17_tcp_known_tuple_goes_to_the_connection() {
+    tcp_demux(0);
+    kani::cover!(true, "handled");
+}
+}
+// @verif id=C17,C13 tier=quick role=tcp_demux timeout=900 desc=SYN-of-new-peer->listener
+crate::verif_proof! { unwind = 8;
+fn c17_tcp_new_peer_goes_to_the_listener() {
+    tcp_demux(1);
+    kani::cover!(true, "second child");
+}
+}
+// @verif id=C17 tier=quick role=tcp_demux timeout=900 desc=stray-ACK-unknown-tuple->RST
+crate::verif_proof! { unwind = 8;
+fn c17_tcp_unknown_tuple_is_reset() {
+    tcp_demux(2);
+    kani::cover!(true, "RST for unknown tuple");
+}
+}
+// @verif id=C17 tier=thorough role=tcp_demux timeout=900 desc=stray-RST-unknown-tuple->silence
+crate::verif_proof! { unwind = 8;
+fn c17_tcp_stray_rst_is_ignored() {
+    tcp_demux(3);
+    kani::cover!(true, "ignored");
+}
+}
+
+/// Dropping the listener resets and reclaims every unaccepted child (handshaking or accept-ready)
+/// and the listener itself: no socket, binding or 4-tuple entry is left.
+fn listener_close(established: bool) {
+    let (mut k, lfd, child, _) = mk_listener_with_child(2, if established { TcpState::Established } else { TcpState::SynReceived });
+    if established {
+        k.sockets.get_mut(lfd).unwrap().listen.as_mut().unwrap().ready.push_back(child);
+    }
+    k.close(lfd);
+    assert!(k.sockets.iter().count() == 0, "listener and its unaccepted child are gone");
+    assert!(k.sockets.get(child).is_none() && k.sockets.find_connection(L, R).is_none());
+    let key = BindKey { domain: Domain::Inet, ty: Type::Stream, local_addr: A, local_port: 80 };
+    assert!(k.sockets.find_by_bind(&key).is_empty(), "the port can be bound again");
+    assert!(k.outbound.len() == 1);
+    let o = tcp_of(k.outbound.back().unwrap());
+    assert!(o.flags.rst && o.dst_port == R.port(), "the connector is told with a RST");
+    std::mem::forget(k);
+}
+// @verif id=C13 tier=quick role=listener_close timeout=900 desc=handshaking-child
+crate::verif_proof! { unwind = 8;
+fn c13_listener_close_resets_handshaking_child() {
+    listener_close(false);
+    kani::cover!(true, "handshaking child reset");
+}
+}
+// @verif id=C13 tier=quick role=listener_close timeout=900 desc=accept-ready-child
+crate::verif_proof! { unwind = 8;
+fn c13_listener_close_resets_accept_ready_child() {
+    listener_close(true);
+    kani::cover!(true, "accept-ready child reset");
+}
+}
+
+// C13-D1 (derived): a child that was never handed to the application has no handle anyone could
+// close; once it is aborted (RST from a connector that gave up, or SYN-ACK retransmit exhaustion) it
+// must be reclaimed by the end of the same egress pass - nothing else will ever remove it, and its
+// stale 4-tuple entry swallows later connection attempts from that address/port.
+fn aborted_child(by_rst: bool) {
+    let (mut k, _lfd, child, _snd_nxt) = mk_listener_with_child(2, TcpState::SynReceived);
+    if by_rst {
+        let seg = TcpSegment { src_port: R.port(), dst_port: 80, seq: kani::any(), ack: kani::any(),
+            flags: TcpFlags { syn: false, ack: kani::any(), fin: false, rst: true, psh: false, urg: false }, window: 0, payload: Bytes::new() };
+        handle_on_connection(&mut k, child, L, R, &seg);
+        std::mem::forget(seg);
+    } else {
+        // retransmit budget already used up: the next pass aborts with timed_out
+        k.retx_threshold = 1;
+        k.retx_max = 0;
+        check_retx(&mut k);
+    }
+    let t = k.sockets.get(child).map(|s| s.tcb.as_ref().unwrap().state);
+    assert!(t.is_none() || t == Some(TcpState::Closed), "aborted");
+    reap_closed(&mut k);
+    assert!(k.sockets.get(child).is_none(), "D1: aborted never-accepted child stays in the socket table forever");
+    assert!(k.sockets.find_connection(L, R).is_none(), "D1: stale 4-tuple entry");
+    std::mem::forget(k);
+}
+// @verif id=C13 tier=quick role=aborted_child_reclaimed derived=1 witness=c13_aborted_unaccepted_child_is_reclaimed timeout=900 desc=aborted-by-RST
+crate::verif_proof! { unwind = 8;
+fn c13_child_aborted_by_rst_is_reclaimed() {
+    aborted_child(true);
+    kani::cover!(true, "aborted by RST");
+}
+}
+// @verif id=C13 tier=quick role=aborted_child_reclaimed derived=1 witness=c13_aborted_unaccepted_child_is_reclaimed timeout=900 desc=aborted-by-retransmit-exhaustion
+crate::verif_proof! { unwind = 8;
+fn c13_child_aborted_by_timeout_is_reclaimed() {
+    aborted_child(false);
+    kani::cover!(true, "aborted by handshake retransmit exhaustion");
+}
+}
